@@ -43,6 +43,7 @@ def install(e):
     install_open_socket(e)
     install_tls(e)
     install_tunnel_connect(e)
+    install_connect_body(e)
 
 
 def install_open_socket(e):
@@ -148,7 +149,10 @@ def install_open_socket(e):
                 c.ghost[g] = c.fresh("int", g)
     e.add(Contract(H + "_open_socket", cases=[("no-user-options", os_case(0)), ("two-user-options", os_case(2))],
                    requires=lambda c, a: z(e.models.b_len(c, [a["addrinfo_list"]], {}, None), "int") >= 1,
-                   ensures=os_post, result=lambda c, a: c.new_ext("sock"), havoc=os_havoc_call,
+                   ensures=os_post,
+                   result=lambda c, a: c.new_ext("sock", opts=list(DEFAULTS) + [tuple(o) for o in a["sockopt"]], timeout=a["timeout"],
+                                                 connected_to=(c.fresh("str", "peer_host"), c.fresh("int", "peer_port"))),
+                   havoc=os_havoc_call,
                    raises=[(OSError, None, os_fail)],
                    modifies=lambda c, a: ["ghost:opened_handles", "ghost:closed_handles", "ghost:connect_attempts"], props=("C18",),
                    doc="tries the addresses in order: each socket is created from its own (family, type, proto), gets the timeout, every default "
@@ -253,6 +257,8 @@ def install_tls(e):
     def tls_post(c, old, a, res):
         if not (isinstance(res, Ext) and res.attrs.get("tls")):
             return z3.BoolVal(False)
+        if c.mode == "assume" and "ctx" not in res.attrs:
+            return z3.BoolVal(True)  # at a call site the result only records what was wrapped and for which name
         ctx = res.attrs["ctx"]
         kw = res.attrs["wrap_kwargs"]
         same = lambda x, y: (lambda r: z3.BoolVal(r) if isinstance(r, bool) else r)(e.interp.same_value(c, x, y))
@@ -336,6 +342,8 @@ def install_tunnel_connect(e):
     def tn_post(c, old, a, res):
         sent = c.ghost.get("$last_send_data")
         st = c.ghost.get("$tunnel_status")
+        if c.mode == "assume":
+            return z3.BoolVal(res is a["sock"])  # at a call site: the same socket, now tunnelled (ghost $tunnelled)
         if sent is None or tag_of(sent) != "str" or st is None:
             return z3.BoolVal(False)
         return z3.And(z3.BoolVal(res is a["sock"]), z(sent) == connect_request(c, a), z3.BoolVal(c.ghost.get("$last_send_sock") is a["sock"]),
@@ -363,7 +371,7 @@ def install_tunnel_connect(e):
         n = c.fresh("int", "n_addresses")
         c.assume(n.t >= 0)
         return addrinfo_seq(c, n)
-    e.add(Contract("_socket:getaddrinfo", assumed=True, result=gai_res, havoc=lambda c, a, old, k: None,
+    e.add(Contract("socket:getaddrinfo", assumed=True, result=gai_res, havoc=lambda c, a, old, k: None,
                    raises=[(_socket.gaierror, None, None)], doc="socket.getaddrinfo(host, port, ...): the resolver; records what was asked"))
 
     def pi_obj(c, kind):
@@ -384,6 +392,8 @@ def install_tunnel_connect(e):
         lst, tunnel, auth = res
         ch = c.ghost.get("$proxy_choice")
         rs = c.ghost.get("$resolved")
+        if (ch is None or rs is None) and c.mode == "assume":
+            return z3.BoolVal(True)  # at a call site only the shape of the result is relied upon
         if ch is None or rs is None:
             return z3.BoolVal(False)
         phost, pport, pauth = ch
@@ -401,3 +411,84 @@ def install_tunnel_connect(e):
                    raises=[(X.WebSocketAddressException, None, None), (X.WebSocketProxyException, None, None), (ValueError, None, None)], props=("C18", "C19"),
                    doc="asks get_proxy_info once; without a proxy resolves the target host and port itself (no tunnel); with one resolves the "
                        "proxy's host and port (80 if none) and reports that a CONNECT tunnel with the proxy's credentials is needed"))
+
+
+def install_connect_body(e):
+    """_http.connect: cases, post-conditions, verification of its body (C11, C18, C19)."""
+    import websocket._socket as sm
+    ct = e.contracts[H + "connect"]
+    ssl_ct = e.contracts[H + "_ssl_socket"]
+    gal_ct = e.contracts[H + "_get_addrinfo_list"]
+    # richer results for the callees as seen from connect(): what was wrapped / resolved is recorded
+    ssl_ct.result = lambda c, a: c.new_ext("sock", tls=True, inner=a["sock"], hostname_arg=a["hostname"], sslopt_arg=a["user_sslopt"])
+    base_gal_havoc = gal_ct.havoc
+
+    def gal_havoc(c, a, old, k):
+        c.ghost["$gal_args"] = (a["hostname"], a["port"], a["is_secure"], a["proxy"])
+        base_gal_havoc(c, a, old, k)
+    gal_ct.havoc = gal_havoc
+    e.after_call[("connect", "parse_url")] = lambda c, fr, r: c.ghost.__setitem__("$pu", r)
+    e.after_call[("connect", "_open_socket")] = lambda c, fr, r: c.ghost.__setitem__("$opened", r)
+
+    def pi_obj(c, kind):
+        d = dict(proxy_host=None, proxy_port=0, auth=None, no_proxy=None, proxy_protocol="http")
+        if kind != "none":
+            d.update(proxy_host=c.fresh("str", "proxy_host"), proxy_port=c.fresh("int", "proxy_port"),
+                     auth=c.fresh(("opt", ("tuple", ["str", "str"])), "proxy_auth"), proxy_timeout=None,
+                     proxy_protocol="http" if kind == "http" else "socks5")
+        return c.alloc("obj", http_mod.proxy_info, d)
+
+    def cn_case(pkind, own):
+        def case(c):
+            ghost_net(c)
+            so = c.alloc("obj", sm.sock_opt, dict(sockopt=(), sslopt=c.alloc("dict", None, {}), timeout=c.fresh(("opt", "real"), "timeout")))
+            return dict(url=c.fresh("str", "url"), options=so, proxy=pi_obj(c, pkind), socket=c.new_ext("sock", given=True) if own else None)
+        return case
+
+    def same(c, x, y):
+        r = e.interp.same_value(c, x, y)
+        return z3.BoolVal(r) if isinstance(r, bool) else r
+
+    def cn_post(c, old, a, res):
+        sk, triple = res
+        pu = c.ghost.get("$pu")
+        if pu is None:
+            return z3.BoolVal(False)
+        host, port, resource, secure = pu
+        conds = [same(c, triple[0], host), same(c, triple[1], port), same(c, triple[2], resource), z3.Contains(z(a["url"]), z3.StringVal(":"))]
+        if a["socket"] is not None:
+            # a caller-supplied transport is handed back untouched
+            conds.append(z3.BoolVal(sk is a["socket"]))
+            return z3.And(*conds)
+        ga = c.ghost.get("$gal_args")
+        opened = c.ghost.get("$opened")
+        if ga is None or opened is None or not isinstance(sk, Ext):
+            return z3.BoolVal(False)
+        # the resolver is asked for the URL's own host, port and security flag
+        conds += [same(c, ga[0], host), same(c, ga[1], port), same(c, ga[2], secure), z3.BoolVal(ga[3] is a["proxy"])]
+        is_tls = bool(sk.attrs.get("tls"))
+        conds.append(z(secure, "bool") == z3.BoolVal(is_tls))     # TLS exactly for wss
+        if is_tls:
+            # what is wrapped is the socket just opened (after the CONNECT exchange, if any), with the origin's host name
+            conds += [z3.BoolVal(sk.attrs.get("inner") is opened), same(c, sk.attrs.get("hostname_arg"), host),
+                      z3.BoolVal(sk.attrs.get("sslopt_arg") is old.getf(a["options"], "sslopt"))]
+        else:
+            conds.append(z3.BoolVal(sk is opened))
+        tun = c.ghost.get("$tunnelled")
+        need = c.ghost.get("$need_tunnel")
+        if need is not None:
+            conds.append(z(need, "bool") == z3.BoolVal(tun is opened))
+        conds.append(z(c.ghost["opened_handles"]) - z(c.ghost["closed_handles"]) == z(old.ghost["opened_handles"]) - z(old.ghost["closed_handles"]) + 1)
+        return z3.And(*conds)
+    e.after_call[("connect", "_get_addrinfo_list")] = lambda c, fr, r: c.ghost.__setitem__("$need_tunnel", r[1])
+
+    def cn_fail(c, old, a, exc):
+        return z(c.ghost["opened_handles"]) - z(c.ghost["closed_handles"]) == z(old.ghost["opened_handles"]) - z(old.ghost["closed_handles"])
+    ct.cases = [(f"proxy-{pk},{'own-socket' if own else 'resolve'}", cn_case(pk, own)) for pk in ("none", "http", "socks") for own in (False, True)]
+    ct.ensures_verify = cn_post
+    base_ens = ct.ensures
+    ct.ensures = lambda c, old, a, res: cn_post(c, old, a, res) if c.mode == "prove" else base_ens(c, old, a, res)
+    ct.raises = [(cls, w, cn_fail) for (cls, w, p) in ct.raises] + [(_ssl.SSLError, None, cn_fail), (UnicodeEncodeError, None, cn_fail)]
+    ct.modifies = lambda c, a: ["ghost:" + g for g in ("opened_handles", "closed_handles", "connect_attempts", "rpos", "rx_calls", "wire", "tx_calls", "$line_start")]
+    ct.doc += "; the triple returned is parse_url(url); the resolver is asked for that host/port; the socket is wrapped in TLS exactly when the URL " \
+              "is wss, after the CONNECT exchange when a proxy tunnel is needed, with the origin's host name"
